@@ -23,11 +23,15 @@ LEVEL_TEXT = (
 )
 LEVEL_NOTE = (
     "decides the property on the lattice only; whether the physical anomalous dimensions satisfy the premise is C25/C29; "
-    "tolerance 1e-11 relative to max(1, |K|)"
+    "tolerance 1e-12 relative to max(1, |K|). Conservation is a STRUCTURAL property: every prescription is a polynomial in (or the "
+    "exponential / inverse of) left-annihilated matrices plus the identity, so a wrong numerical coefficient, beta value, nf, sign or "
+    "matrix order conserves the covector just as well. This check notices exactly: a scalar added to / broadcast onto a matrix, an "
+    "element-wise instead of a matrix product, a missing identity, a wrong basis index, a non-finite entry. A pass is no evidence that "
+    "a prescription is correct (that is C08/C12/C14 and the scale-variation properties)"
 )
 FLOOR_NONTRIVIAL = 30
 
-TOL = 1e-11
+TOL = 1e-12  # measured 7.5e-15 (quick) / 1.1e-14 (thorough); a structural break is >= a^3 |gamma_3| ~ 1e-5 at the smallest coupling
 PAIRS = [[0.03, 0.0125], [0.0125, 0.03], [0.05, 0.002], [0.005, 0.005]]
 PAIRS_THOROUGH = PAIRS + [[0.002, 0.05], [0.0125, 0.005], [0.03, 0.05]]
 ITERS = [1, 2, 5, 50]
